@@ -37,6 +37,7 @@ THEOREMS = [
     "MySensors.C16.explored_two_thread", "MySensors.C16.explored_two_thread_all_schedules",
     "MySensors.C16.pinned_send_raises",
     "MySensors.C16.queue_fifo", "MySensors.C16.queue_exactly_once", "MySensors.C16.queue_complete",
+    "MySensors.C16.queue_drains",
     "MySensors.C16.adjacent_disconnect_loss_race_witness",
     "MySensors.C16.adjacent_double_reconnect_witness",
     "MySensors.C16.adjacent_late_clear_witness",
@@ -673,13 +674,73 @@ class _TimeShim:
         return 0.0
 
 
-def queue_run(counts, sched, with_stop=False):
+def coop_event_class(ctx, points=True):
+    """threading.Event for the code under test while the scheduler runs its threads: set and clear are
+    atomic steps with a scheduling point in front of them (not in the sweep with a stop() thread, where the
+    point would cut stop() in two and let a start() from another user thread run in the middle of it: two
+    calls the property does not race against each other), is_set is a plain read; wait() without the flag
+    parks the thread, which makes progress again only once another thread has set the flag (a timed wait
+    gives up after one turn)."""
+    class CoopEvent:
+        def __init__(self):
+            self.flag = False
+
+        def set(self):
+            if points:
+                ctx.point("evset")
+            self.flag = True
+
+        def clear(self):
+            if points:
+                ctx.point("evclear")
+            self.flag = False
+
+        def is_set(self):
+            return self.flag
+
+        isSet = is_set
+
+        def wait(self, timeout=None):
+            if self.flag:
+                return True
+            if timeout is not None:
+                ctx.point("slp")
+                return self.flag
+            while not self.flag:
+                ctx.point("blocked")
+            return True
+    return CoopEvent
+
+
+def queue_run(counts, sched, with_stop=False, drain=False):
     """counts: jobs per producer; sched: list of 'u' (pump), producer index, or 's' (the thread calling
     stop(), only with_stop)."""
     import mysensors.task as task_mod
     from mysensors.gateway_serial import SerialGateway
     ctx = Ctx(timeout=0.4 if with_stop else 10.0)
-    gw = SerialGateway("/dev/verif-none")
+    real_threading = task_mod.threading
+    wanted = []
+
+    class FakeThread:
+        def __init__(self, target=None, args=(), **_kw):
+            self.target = target
+
+        def start(self):
+            wanted.append(self.target)
+
+    class Proxy:
+        Event = coop_event_class(ctx, points=not with_stop)
+
+        def __getattr__(self, name):
+            if name == "Thread" and with_stop:
+                return FakeThread
+            return getattr(real_threading, name)
+    task_mod.threading = Proxy()
+    try:
+        gw = SerialGateway("/dev/verif-none")
+    except BaseException:
+        task_mod.threading = real_threading
+        raise
     conn = PlainConn()
     if with_stop:
         conn.ctx = ctx
@@ -688,8 +749,9 @@ def queue_run(counts, sched, with_stop=False):
     dq.ctx = ctx
     dq.order = []
     gw.tasks.queue = dq
-    old_time = task_mod.time
-    task_mod.time = _TimeShim(ctx)
+    old_time = getattr(task_mod, "time", None)
+    if old_time is not None:
+        task_mod.time = _TimeShim(ctx)
     try:
         def producer(i):
             def body():
@@ -700,24 +762,10 @@ def queue_run(counts, sched, with_stop=False):
         prods = [ctx.coop.spawn(producer(i), f"p{i}") for i in range(len(counts))]
         pump = ctx.coop.spawn(gw.tasks._poll_queue, "pump")
         stopper = ctx.coop.spawn(gw.tasks.stop, "stop") if with_stop else None
-        restarter, pump2, wanted = None, [], []
+        restarter, pump2 = None, []
         if with_stop:
             # 'r': the user starts the stopped gateway again; the poll thread start() creates is run under the
             # scheduler as well ('v')
-            class FakeThread:
-                def __init__(self, target=None, args=(), **_kw):
-                    self.target = target
-
-                def start(self):
-                    wanted.append(self.target)
-
-            class Proxy:
-                Thread = FakeThread
-
-                def __getattr__(self, name):
-                    return getattr(real_threading, name)
-            real_threading = task_mod.threading
-            task_mod.threading = Proxy()
             gw.tasks.transport.connect = lambda: None
             restarter = ctx.coop.spawn(gw.tasks.start, "restart")
         for th in prods + [pump] + ([stopper, restarter] if with_stop else []):
@@ -733,23 +781,45 @@ def queue_run(counts, sched, with_stop=False):
                 new_pump = ctx.coop.spawn(wanted.pop(0), "pump2")
                 ctx.coop.prime(new_pump)
                 pump2.append(new_pump)
+        executed = list(sched)
+        if drain:
+            # the producers append whatever they have left, then the pump gets six turns per job and a few
+            # more (C16.queue_drains: three per job empty the queue from any state the pump can be in)
+            for i, th in enumerate(prods):
+                turns = 0
+                while not th.done and turns < 8 * counts[i] + 8:
+                    ctx.coop.resume(th)
+                    executed.append(i)
+                    turns += 1
+            for _ in range(6 * sum(counts) + 12):
+                if pump.done:
+                    break
+                ctx.coop.resume(pump)
+                executed.append("u")
         sent = [w.strip() for w in conn.writes]
         queued = [item[1][0] for item in collections.deque.__iter__(dq)]
         tag = pump.tag if not pump.done else "done"
-        return {"sent": sent, "queue": queued, "order": list(dq.order), "pump": tag,
+        return {"sent": sent, "queue": queued, "order": list(dq.order), "pump": tag, "executed": executed,
+                "producers_done": all(th.done for th in prods),
                 "pump_status": pump.status, "stop_status": stopper.status if with_stop else None,
                 "pump2_status": pump2[0].status if pump2 else None,
                 "restart_status": restarter.status if restarter else None}
     finally:
-        task_mod.time = old_time
-        if with_stop:
-            task_mod.threading = real_threading
+        if old_time is not None:
+            task_mod.time = old_time
+        task_mod.threading = real_threading
         ctx.coop.shutdown()
 
 
-def judge_queue(counts, r):
+def judge_queue(counts, r, drained=False):
     if r["pump_status"] not in ("run",):
         return ("pump-died", f"pump ended with {r['pump_status']}")
+    if drained and not r.get("producers_done", True):
+        return ("producer-blocked", "a producer did not get through add_job in eight turns per job")
+    if drained and (r["queue"] or len(r["sent"]) != sum(counts)):
+        return ("job-never-sent", f"all producers are done and the pump has had six turns per job and more, "
+                                  f"yet jobs {r['queue']} are still queued (sent: {r['sent']}; the pump is at "
+                                  f"'{r['pump']}')")
     if r["sent"] + r["queue"] != r["order"]:
         return ("not-fifo", f"sent+queue {r['sent'] + r['queue']} != append order {r['order']}")
     if len(set(r["order"])) != len(r["order"]):
@@ -922,7 +992,20 @@ def run(tier, seed, driver):
     REAL_CONNECT[0] = True
     try:
         for start, other in (("broken", "hook1"), ("broken", "full1"), ("connected", "hook1"), ("broken", "hook0")):
-            for path, obs, data in all_schedules(start, other, cap=400 if tier == "quick" else 6000):
+            sched_iter = all_schedules(start, other, cap=400 if tier == "quick" else 6000)
+            while True:
+                try:
+                    path, obs, data = next(sched_iter)
+                except StopIteration:
+                    break
+                except HarnessHang as exc:
+                    res.oracle_failures.append({
+                        "key": {"kind": "send-never-returns", "start": start, "other": other},
+                        "what": f"with the real SyncTransport.connect as reconnect callback a thread blocked for good "
+                                f"(start={start}, against={other}): {exc}",
+                        "replay": {"op": "run", "sender": "send", "start": start, "other": other, "schedule": [],
+                                   "real_connect": True}})
+                    break
                 res.count("real-connect-schedules")
                 res.distinct.add(digest(["rc", start, other, path]))
                 bad = [st for st in data["statuses"] if st not in ("ret", "run", "new", "done")]
@@ -964,21 +1047,37 @@ def run(tier, seed, driver):
     if tier == "quick":
         rng.shuffle(qcases)
         qcases = qcases[:1500]
-    for cnts, sched in qcases:
-        r = queue_run(list(cnts), sched)
+    hung = 0
+    for qi, (cnts, sched) in enumerate(qcases):
+        drained = qi % 3 == 0
+        try:
+            r = queue_run(list(cnts), sched, drain=drained)
+            before, sched = sched, r["executed"]
+        except HarnessHang as exc:
+            # a thread stopped moving somewhere that is not one of the instrumented accesses (it waits on
+            # something no other thread of the schedule will provide)
+            hung += 1
+            res.oracle_failures.append({
+                "key": {"kind": "queue-thread-blocked"},
+                "what": f"a pump / producer thread blocked for good on the schedule {sched} with jobs {cnts}: {exc}",
+                "replay": {"op": "queue", "counts": list(cnts), "schedule": sched, "drained": drained}})
+            if hung >= 3:
+                break
+            continue
         sc = ",".join("u" if a == "u" else f"p{a}" for a in sched) or "-"
         ops.append(f"QRUN {','.join(map(str, cnts))} {sc}")
         pc = {"bool": "c", "pop": "pop", "slp": "slp"}.get(r["pump"], r["pump"])
         impl.append(f"sent={show_jobs(r['sent'])} queue={show_jobs(r['queue'])} pc={pc} raised=0"
                     if r["pump_status"] == "run" else f"pump {r['pump_status']}")
         cases.append(("queue", cnts, sched))
-        res.count("queue-schedules")
+        res.count("queue-schedules" + (":drained" if drained else ""))
         if r["sent"]:
             res.distinct.add(digest(["q", cnts, sched]))
-        bad = judge_queue(cnts, r)
+        bad = judge_queue(cnts, r, drained)
         if bad:
             res.oracle_failures.append({"key": {"kind": "queue-" + bad[0]}, "what": bad[1],
-                                        "replay": {"op": "queue", "counts": list(cnts), "schedule": sched}})
+                                        "replay": {"op": "queue", "counts": list(cnts), "schedule": before,
+                                                   "drained": drained}})
     # (d') the same queue with a user thread calling stop() somewhere in the schedule (oracle only)
     scases = []
     for cnts in [(3,), (2, 1)]:
@@ -1089,6 +1188,9 @@ def replay(payload):
         REAL_CONNECT[0] = True
         try:
             path, ens, obs, data = execute(r["start"], r["other"], r["schedule"], r.get("sender", "send"))
+        except HarnessHang as exc:
+            print("a thread blocked for good:", exc)
+            return 1
         finally:
             REAL_CONNECT[0] = False
         print("schedule:", path)
@@ -1119,9 +1221,16 @@ def replay(payload):
         print("oracle:", bad)
         return 1 if bad else 0
     elif r.get("op") == "queue":
-        out = queue_run(r["counts"], r["schedule"])
+        try:
+            out = queue_run(r["counts"], r["schedule"], drain=bool(r.get("drained")))
+        except HarnessHang as exc:
+            print("a thread blocked for good:", exc)
+            return 1
         print("impl :", out)
-        print("oracle:", judge_queue(r["counts"], out))
-        sc = ",".join("u" if a == "u" else f"p{a}" for a in r["schedule"]) or "-"
+        verdict = judge_queue(r["counts"], out, bool(r.get("drained")))
+        print("oracle:", verdict)
+        sc = ",".join("u" if a == "u" else f"p{a}" for a in out["executed"]) or "-"
         print("model:", common.Driver().run([f"QRUN {','.join(map(str, r['counts']))} {sc}"])[0])
+        if verdict:
+            return 1
     return 0
